@@ -110,6 +110,22 @@ func init() {
 	}
 	I["(*sync.Mutex).Lock"] = lock
 	I["(*sync.Mutex).Unlock"] = unlock
+	tryLock := func(ex *Exec, th *Thread, caller *Frame, args []Value, res *ssa.Call, finish func(Value)) bool {
+		m := ex.mutexOf(args[0].(Ptr))
+		if ex.schedPoint(th) {
+			return true
+		}
+		if m.writer != nil || len(m.readers) > 0 {
+			finish(ex.ctx.False)
+			return true
+		}
+		m.writer = th
+		th.held = append(th.held, heldLock{m, true})
+		finish(ex.ctx.True)
+		return true
+	}
+	I["(*sync.Mutex).TryLock"] = tryLock
+	I["(*sync.RWMutex).TryLock"] = tryLock
 	I["(*sync.RWMutex).Lock"] = lock
 	I["(*sync.RWMutex).Unlock"] = unlock
 	I["(*sync.RWMutex).RLock"] = func(ex *Exec, th *Thread, caller *Frame, args []Value, res *ssa.Call, finish func(Value)) bool {
